@@ -293,4 +293,8 @@ def main_wrapper(fn) -> None:
     except MachineryError as ex:
         print(f"MACHINERY-FAILURE: {ex}", file=sys.stderr)
         sys.exit(2)
+    except Exception:  # noqa  - a defect of the harness itself is a machinery failure (exit 2), never a verdict
+        import traceback
+        print("MACHINERY-FAILURE: unexpected error in the harness\n" + traceback.format_exc()[-3000:], file=sys.stderr)
+        sys.exit(2)
     sys.exit(rc)
